@@ -18,7 +18,7 @@ func init() {
 			"(String() on net.Addr / netip / net.IP values unless the receiver provably comes from LocalAddr(), SplitHostPort/JoinHostPort results, fmt.Sprint* with an address or error argument) and every error text (Error() — network errors embed peer addresses); " +
 			"propagation follows SSA def-use on strings, concatenation/formatting, struct fields (per type and field), cells, varargs, parameters and results along resolved call edges; sinks are label values and metric names of every Prometheus call; a source reaching a sink is reported with its flow; " +
 			"every connection-error status is a string constant; (CLASSIFY) in the location helper the database is consulted only on the ip2info != nil, ip != nil and IsGlobalUnicast edges, XL/XD/ZZ/XA are assigned on every path of exactly the non-global, database-error, empty-country and parse-failure edges, " +
-			"and the address helper parses before anything else; (INFOSTATE) location information is stored only in per-connection / per-client records at construction, never overwritten in shared state; (ARITY) label arity agrees with the vectors.",
+			"and the address helper parses before anything else; (INFOSTATE) location information is stored only in per-connection / per-client records at construction, never overwritten in shared state; (ARITY) label arity agrees with the vectors. (INFOSTATE, cont.) records holding location information are built fresh for the client they are filed under (no recycled records), and wrappers of the lookup return its answer unchanged also together with an error (XA/XD are returned with one).",
 		NotDecided: "contents of the database answers; taint through non-string values that are later formatted outside the module.",
 	})
 }
